@@ -236,6 +236,13 @@ func c10Case(t *core.T, maxSteps int) {
 			if err != nil {
 				t.Fatalf("extend: %v", err)
 			}
+			// pending versions: some deposits, withdrawals and payments are seen unconfirmed first
+			for j, tx := range b.Msg.Transactions {
+				if j > 0 && t.R.Chance(40) {
+					wd.W.DeliverTx(tx)
+					t.Count("transactions_seen_unconfirmed_first", 1)
+				}
+			}
 			wd.W.Deliver(b)
 			shape = append(shape, "e")
 		case 1:
